@@ -427,6 +427,54 @@ func scHygiene(what string) func(x *vs.Exec) {
 	}
 }
 
+// sign: a session is created only for a correctly signed request — also when the proxy's secret key is empty.
+func scSign(skKind, signKind string) func(x *vs.Exec) {
+	return func(x *vs.Exec) {
+		defer sw.Guard()
+		w := sw.New(x, sw.Opt{AllowPorts: sw.P(20000, 20001), UserConnTimeout: 5, HeartbeatTimeout: -1})
+		owner := w.MustLogin("owner", sw.LoginOpt{User: "u1"})
+		vis := w.MustLogin("vis", sw.LoginOpt{User: "u2"})
+		key := map[string]string{"sk": sk, "empty": ""}[skKind]
+		if r := owner.Reg(&msg.NewProxy{ProxyName: "p", ProxyType: "xtcp", Sk: key, AllowUsers: []string{"*"}}); !strings.HasPrefix(r, "ok") {
+			vs.Fail("setup: %s", r)
+			return
+		}
+		sids := 0
+		owner.OnSid = func(p *sw.Peer, sid string) { sids++ }
+		w.Quiesce()
+		ts := w.Now()
+		m := &msg.NatHoleVisitor{TransactionID: "v1", ProxyName: "p", Protocol: "quic", Timestamp: ts, MappedAddrs: []string{"8.8.8.8:200", "8.8.8.8:200"}}
+		switch signKind {
+		case "right":
+			m.SignKey = util.GetAuthKey(key, ts)
+		case "wrongkey":
+			m.SignKey = util.GetAuthKey("some-other-key", ts)
+		case "stalets":
+			m.SignKey = util.GetAuthKey(key, ts-1)
+		case "garbage":
+			m.SignKey = "0123456789abcdef0123456789abcdef"
+		case "none":
+			m.SignKey = ""
+		}
+		vs.SetInterest(true)
+		vis.Send(m)
+		w.Quiesce()
+		time.Sleep(3 * time.Second)
+		w.Quiesce()
+		vs.SetInterest(false)
+		created := sids > 0 || peek.F(w.Svc, "rc.NatHoleController.sessions").Len() > 0
+		if signKind == "right" && !created {
+			vs.Fail("correctly signed NAT-hole request for a proxy with %s secret key did not create a session", skKind)
+		}
+		if signKind != "right" && created {
+			vs.Fail("NAT-hole request with signature %q for a proxy with %s secret key created a session (owner notified %d times)", signKind, skKind, sids)
+		}
+		vs.Observe("%s/%s created=%v", skKind, signKind, created)
+		time.Sleep(150 * time.Second)
+		w.Teardown()
+	}
+}
+
 func scenarios() {
 	vs.ScenarioFactory = func(name string) *vs.Scenario {
 		s := &vs.Scenario{Name: name, Horizon: 100000 * time.Hour, MaxSteps: 400_000_000, NoEarlyTick: true, Watchdog: 15 * time.Minute,
@@ -447,6 +495,10 @@ func scenarios() {
 			s.Body = scAnalysis(ci, vi, d)
 		case "inputs":
 			s.Body = scInputs
+		case "sign":
+			s.Body = scSign(f[1], f[2])
+			s.Horizon = 1000 * time.Second
+			s.End = sw.StdEnd
 		case "hyg":
 			s.Body = scHygiene(f[1])
 			s.Horizon = 1000 * time.Second
@@ -463,7 +515,7 @@ func main() {
 	if c == nil {
 		return
 	}
-	c.Rule("E1: (a) for all 36 pairs of NAT feature classes, BFS over histories of {exchange, exchange + success report} to depth D through the real Controller (HandleVisitor / HandleClient / HandleReport on the virtual clock), deduplicated on the analyzer's score vector; every round checked against the statement (same sid and mode, one sender + one receiver, mode rule, each side gets the other's addresses, port ranges inside 1..65535); boundary ports and malformed address lists must yield errors to both; (b) complete exchanges on the real frps racing with proxy close / owner or visitor disconnect / unknown and duplicate messages under deviation-bounded DFS; non-trivial = distinct score vector / end state")
+	c.Rule("E1: (a) for all 36 pairs of NAT feature classes, BFS over histories of {exchange, exchange + success report} to depth D through the real Controller (HandleVisitor / HandleClient / HandleReport on the virtual clock), deduplicated on the analyzer's score vector; every round checked against the statement (same sid and mode, one sender + one receiver, mode rule, each side gets the other's addresses, port ranges inside 1..65535); boundary ports and malformed address lists must yield errors to both; signatures {right, other key, stale timestamp, garbage, none} x proxy secret key {set, empty}: a session only for the right one; (b) complete exchanges on the real frps racing with proxy close / owner or visitor disconnect / unknown and duplicate messages under deviation-bounded DFS; non-trivial = distinct score vector / end state")
 	c.Assume("(c) 'two honest peers find each other' is not decided here: MakeHole needs IP TTL control on real sockets and uniformly random port sets, which the virtual network and the two-valued random source do not provide (see DESIGN.md)")
 	pool := vs.GetPool(c.Workers)
 	depth := drv.Pick(c, 6, 10)
@@ -474,6 +526,11 @@ func main() {
 		}
 	}
 	names = append(names, "inputs")
+	for _, k := range []string{"sk", "empty"} {
+		for _, sg := range []string{"right", "wrongkey", "stalets", "garbage", "none"} {
+			names = append(names, "sign/"+k+"/"+sg)
+		}
+	}
 	rs, err := pool.RunBatch(names, true)
 	if err != nil {
 		c.Cap("harness error: " + err.Error())
